@@ -112,22 +112,34 @@ def _r6(ctx):
         body = sk.plain(fs[0].body)
         ps = cstmt.params_of(fs[0].header)
         ab = re.escape(ps[0]) if ps else "ab"
-        alias = [m.start() for m in re.finditer(r"\bN_VSetArrayPointer\s*\(\s*" + ab + r"\s*,\s*cv_y_\s*\)", body)]
-        init = [m.start() for m in re.finditer(r"\bCVodeInit\s*\(\s*cv_mem_\s*,\s*\w+\s*,\s*\w+\s*,\s*cv_y_\s*\)", body)]
+        alias = [m.start() for m in re.finditer(r"\bN_VSetArrayPointer\s*\(\s*" + ab + r"\s*,\s*cv_y_\s*\)|\bNV_DATA_S\s*\(\s*cv_y_\s*\)\s*=\s*" + ab + r"\s*;"
+                                                 r"|\bcv_y_\s*=\s*N_VMake_Serial\s*\([^;]*,\s*" + ab + r"\s*[,)]", body)]
+        init = [m.start() for m in re.finditer(r"\bCVodeInit\s*\(\s*cv_mem_\s*,\s*\w+\s*,\s*[\w.]+\s*,\s*cv_y_\s*\)", body)]
+        copied = re.search(r"N_VGetArrayPointer\w*\s*\(\s*cv_y_\s*\)|NV_DATA_S\s*\(\s*cv_y_\s*\)\s*\[|NV_Ith_S\s*\(\s*cv_y_", body)
         ok = len(alias) == 1 and len(init) == 1 and alias[0] < init[0]
-        ctx.check(ok, "R6", f"cvode/{mth}:Solve:cv_y_ wraps ab", (CV, 0),
-                  "N_VSetArrayPointer(ab, cv_y_) precedes CVodeInit(cv_mem_, Fex, t0, cv_y_): what HandleError writes into ab is the integrator's state" if ok else
-                  "cv_y_ is not pointed at the caller's array before CVodeInit: HandleError resets `ab` (flag -6: back to ab_init_) but CVodeReInit restarts from cv_y_'s own copy -- "
-                  "the interval is integrated from the partially advanced state and Solve reports success",
-                  expected="N_VSetArrayPointer(ab, cv_y_); ... CVodeInit(cv_mem_, Fex, t0, cv_y_)", found=f"{len(alias)} aliasing call(s), {len(init)} CVodeInit on cv_y_")
+        key = f"cvode/{mth}:Solve:cv_y_ wraps ab"
+        if ok:
+            ctx.ok("R6", key, (CV, 0), f"N_VSetArrayPointer({ps[0] if ps else 'ab'}, cv_y_) precedes CVodeInit(cv_mem_, Fex, t0, cv_y_): what HandleError writes into the caller's array is the integrator's state")
+        elif copied or (len(alias) == 1 and len(init) == 1) or len(alias) > 1:
+            ctx.bad("R6", key, (CV, 0),
+                    "cv_y_ is not pointed at the caller's array before CVodeInit: HandleError resets `ab` (flag -6: back to ab_init_) but CVodeReInit restarts from cv_y_'s own copy -- "
+                    "the interval is integrated from the partially advanced state and Solve reports success",
+                    expected="N_VSetArrayPointer(ab, cv_y_); ... CVodeInit(cv_mem_, Fex, t0, cv_y_)", found=f"{len(alias)} aliasing call(s), {len(init)} CVodeInit on cv_y_" + ("; the data of cv_y_ is accessed element-wise" if copied else ""))
+        else:
+            ctx.unrec("R6", key, (CV, 0), f"how cv_y_ gets its data in Solve is not understood ({len(alias)} aliasing call(s), {len(init)} CVodeInit on cv_y_)")
         for fname in ("Naunet::Init", "Naunet::Reset"):
             f2 = sk.func(fname)
             if not f2:
                 continue
             b2 = sk.plain(f2[0].body)
             mk = re.findall(r"cv_y_\s*=\s*(\w+)\s*\(", b2)
-            ctx.check(bool(mk) and set(mk) == {"N_VNewEmpty_Serial"}, "R6", f"cvode/{mth}:{fname.split('::')[1]}:cv_y_ has no storage of its own", (CV, 0),
-                      "cv_y_ is an empty vector (data pointer set per Solve call)", expected="cv_y_ = N_VNewEmpty_Serial(..)", found=str(mk))
+            key = f"cvode/{mth}:{fname.split('::')[1]}:cv_y_ has no storage of its own"
+            if mk and set(mk) <= {"N_VNewEmpty_Serial", "N_VNewEmpty"}:
+                ctx.ok("R6", key, (CV, 0), "cv_y_ is an empty vector (data pointer set per Solve call)")
+            elif set(mk) & {"N_VNew_Serial", "N_VClone", "N_VNew"}:
+                ctx.bad("R6", key, (CV, 0), "cv_y_ is created with storage of its own: the state HandleError writes into the caller's array is not the integrator's", expected="cv_y_ = N_VNewEmpty_Serial(..)", found=str(mk))
+            else:
+                ctx.unrec("R6", key, (CV, 0), f"how cv_y_ is created is not understood: {mk}")
 
 
 def _r1(ctx):
@@ -169,9 +181,11 @@ def _guards(F, conds, st, keep=()):
             out.append(g)
             continue
         gp = F.pos.get(id(g[3]), 0)
-        toks = tuple(F.expand(g[1], gp, keep=keep))
+        toks = F.expand(g[1], gp, keep=keep)
+        toks = tuple(t for j, t in enumerate(toks) if not (t == "++" and j + 1 < len(toks) and cstmt.IDENT.match(toks[j + 1])
+                                                            and not (j and (cstmt.IDENT.match(toks[j - 1]) or toks[j - 1] in (")", "]")))))
         names = {t for t in toks if cstmt.IDENT.match(t)}
-        stale = F.written_between(names, gp, sp) or any(F.pos.get(id(lp), 0) > gp and cstmt.written(lp) & names for lp in loops)
+        stale = any(gp < i < sp for nm in names for i, op, rhs, decl in F.defs.get(nm, ())) or any(F.pos.get(id(lp), 0) > gp and cstmt.written(lp) & names for lp in loops)
         if not stale:
             out.append((g[0], toks, g[2], g[3]))
     return out
@@ -298,7 +312,12 @@ def _r3_ladder(ctx, label, F, FLAG, AB, DT, T0):
         ctx.unrec("R3", f"{label}:five levels", where, f"cannot enumerate the levels of `{cstmt.txt(loop[1])}; {cstmt.txt(loop[2])}; {cstmt.txt(loop[3]) if loop[0] == 'for' else ''}`")
         return
     LV = lv[0]
-    ctx.check(levels == [1, 2, 3, 4, 5], "R3", f"{label}:five levels", where, "levels 1..5", found=f"{cstmt.txt(loop[1])}; {cstmt.txt(loop[2])}; {cstmt.txt(loop[3])} -> {levels}")
+    if levels == [1, 2, 3, 4, 5]:
+        ctx.ok("R3", f"{label}:five levels", where, "levels 1..5")
+    else:
+        ctx.unrec("R3", f"{label}:five levels", where, f"the levels are numbered {levels}, not 1..5: `{cstmt.txt(loop[1])}; {cstmt.txt(loop[2])}; {cstmt.txt(loop[3])}`")
+        if not levels:
+            return
     lbody = loop[4]
     lstm = lbody[1] if lbody[0] == "block" else [lbody]
     at = [i for i, x in enumerate(lstm) if reinit(x)]
@@ -482,7 +501,8 @@ def _r4(ctx):
     thrown = None
     # the counter is the variable the observer increments by one; the budget is what the throw compares it with
     incs = [(i, nm) for nm, ds in F.defs.items() for i, op, rhs, decl in ds
-            if op == "++" or (op == "+=" and cstmt.norm(rhs) == "1") or (op == "=" and cstmt.norm(rhs) in (f"{nm}+1", f"1+{nm}"))]
+            if op in ("++", "++cond") or (op == "+=" and cstmt.norm(rhs) == "1") or (op == "=" and cstmt.norm(rhs) in (f"{nm}+1", f"1+{nm}"))]
+    incond = {i for nm, ds in F.defs.items() for i, op, rhs, decl in ds if op == "++cond"}
     for s, c in F.seq:
         if s[0] != "throw":
             continue
@@ -492,9 +512,11 @@ def _r4(ctx):
         shown = str([("" if g[2] else "!") + "(" + cstmt.norm(g[1]) + ")" for g in ifs])
         names = sorted({t for g in ifs for t in g[1] if cstmt.IDENT.match(t)})
         cnt = [nm for i, nm in incs if nm in names]
+        if not [g for g in c if g[0] == "if"]:
+            ctx.bad("R4", "Observer:budget test", (ODE, 0), "the observer throws unconditionally", expected="if (step_ > mxsteps_) throw ..", found=shown)
+            continue
         if len(cnt) != 1 or len(names) != 2:
-            ctx.check(False, "R4", "Observer:budget test", (ODE, 0), "throws exactly when step_ > mxsteps_", expected="if (step_ > mxsteps_) throw ..", found=shown) if not names or not incs else \
-                ctx.unrec("R4", "Observer:budget test", (ODE, 0), f"cannot tell the step counter and the budget apart in {shown}")
+            ctx.unrec("R4", "Observer:budget test", (ODE, 0), f"cannot tell the step counter and the budget apart in {shown}")
             continue
         C = cnt[0]
         M = [x for x in names if x != C][0]
@@ -509,7 +531,7 @@ def _r4(ctx):
         cpos = [i for i, nm in incs if nm == C]
         uncond = [i for i in cpos if not [g for g in F.seq[i][1] if g[0] in ("if", "for", "while", "try", "catch")]]
         ctx.check(bool(uncond) and len(cpos) == 1, "R4", "Observer:counts every step", (ODE, 0), f"{C} is incremented on every observer call, unconditionally")
-        ctx.check(bool(cpos) and max(cpos) < first_test, "R4", "Observer:counts before testing", (ODE, 0), "the call being observed is counted before the budget is tested",
+        ctx.check(bool(cpos) and (max(cpos) < first_test or (max(cpos) == first_test and max(cpos) in incond)), "R4", "Observer:counts before testing", (ODE, 0), "the call being observed is counted before the budget is tested",
                   found="the budget is compared with the count of the previous call: one step more than the budget is taken")
     if thrown is None:
         inc = any(not [g for g in F.seq[i][1] if g[0] == "if"] for i, nm in incs)
@@ -543,7 +565,7 @@ def _r4(ctx):
             a = [cstmt.norm(x) for x in args]
             back = [src for s, c in SF.seq if SF.pos[id(s)] > SF.pos[id(t)] and s[0] in ("for", "expr") for d, src, n in (cstmt.copies(s) or []) if d == STATE]
             args_ok = len(a) == 7 and cstmt.IDENT.match(a[2]) and cstmt.value(args[3], {}) == 0 and a[4] == DT and a[5] == DT and cstmt.IDENT.match(a[6]) \
-                and e[:k] == ["step_", "="] and (not back or a[2] in back)
+                and (not back or a[2] in back)
             ctx.check(bool(args_ok), "R4", "integrate over [0, dt] with the observer", (OD, 0), f"integrate_adaptive(.., y, 0.0, {DT}, {DT}, observer)", found=cstmt.txt(e)[-90:])
             OBS = a[6] if len(a) == 7 else None
         else:
@@ -681,6 +703,7 @@ BENIGN = [
         {"file": CV, "old": "            dt = dt_init;\n", "new": ""},
         {"file": CV, "old": "        // Reset initial conditions\n        t0 = 0.0;", "new": "        dt = (cvflag == -6) ? dt_init : dt - t0;\n        // Reset initial conditions\n        t0 = 0.0;"}]},
     {"name": "reinit-literal-zero", "file": CV, "old": "        cvflag = CVodeReInit(cv_mem_, t0, cv_y_);", "new": "        cvflag = CVodeReInit(cv_mem_, 0.0, cv_y_);"},
+    {"name": "observer-counts-in-the-test", "file": ODE, "old": "    step_ += 1;\n    time_ = t;\n    if (step_ > mxsteps_) {", "new": "    time_ = t;\n    if (++step_ > mxsteps_) {"},
     {"name": "observer-early-return", "file": ODE, "old": "    if (step_ > mxsteps_) {\n        char err[70];", "new": "    if (mxsteps_ >= step_) return;\n    {\n        char err[70];"},
     {"name": "odeint-status-as-bool", "edits": [
         {"file": OD, "old": "    int flag = NAUNET_SUCCESS;\n\n    vector_type y", "new": "    bool failed = false;\n\n    vector_type y"},
